@@ -183,8 +183,15 @@ func c01Engine(c *Ctx) (*slicefx.Engine, slicefx.OrderConfig) {
 		ScoreField: "Score",
 		SrcKey:     "Score",
 		SortedSource: func(v ssa.Value) bool {
-			call, ok := v.(*ssa.Call)
-			return ok && ssau.CallName(call) == fuzzyFind
+			// the matcher's result, or any contiguous part of it
+			src := ssau.SliceSources(v)
+			for _, s := range src {
+				call, ok := s.(*ssa.Call)
+				if !ok || ssau.CallName(call) != fuzzyFind {
+					return false
+				}
+			}
+			return len(src) > 0
 		},
 	}
 	return eng, cfg
@@ -665,7 +672,13 @@ func c01DistinctKeys(l *ssau.RangeLoop) (bool, string) {
 	if _, ok := ssau.IsFieldLoad(l.Over, dbType, "Commands"); ok {
 		return true, "the indices of db.Commands"
 	}
-	if call, ok := l.Over.(*ssa.Call); ok {
+	over := l.Over
+	// a reslice (or a merge of reslices) of one list holds a subset of its
+	// elements: distinctness is inherited
+	if src := ssau.SliceSources(over); len(src) == 1 {
+		over = src[0]
+	}
+	if call, ok := over.(*ssa.Call); ok {
 		switch n := ssau.CallName(call); {
 		case n == fuzzyFind:
 			return true, "the matcher's results (one per target index)"
